@@ -8,6 +8,24 @@ FAMILIES = ["Date", "DateTime", "Time", "Instant", "Duration", "Zoned"]
 OTHER = ["c01", "c02", "c04", "c05", "c06", "c07", "c08", "c18r", "c09", "c11", "c12", "c13", "c14", "c17", "c18"]
 
 
+def public_surface():
+    """Informational: which `pub fn` names of the library the harness source refers to at all (name-based, not a failure)."""
+    import re, glob
+    repo = os.environ.get("VERIF_REPO", "/repo")
+    files = (glob.glob(repo + "/src/builtins/core/**/*.rs", recursive=True) + glob.glob(repo + "/src/builtins/compiled/*.rs")
+             + [repo + "/src/tzdb.rs", repo + "/src/options.rs", repo + "/src/epoch_nanoseconds.rs"] + glob.glob(repo + "/temporal_capi/src/*.rs"))
+    names = set()
+    for f in files:
+        try:
+            src = open(f).read().split("#[cfg(test)]")[0]
+        except OSError:
+            continue
+        names.update(re.findall(r"^\s*pub (?:const )?fn ([a-z_0-9]+)", src, flags=re.M))
+    h = "".join(open(f).read() for f in glob.glob(os.path.join(lib.ROOT, "harness/src/**/*.rs"), recursive=True))
+    un = sorted(n for n in names if not re.search(r"\b" + n + r"\b", h))
+    return dict(total=len(names), referenced_by_harness=len(names) - len(un), not_referenced=un)
+
+
 def run(run):
     q = quick(run)
     dev = lib.build_harness("dev")
@@ -63,6 +81,7 @@ def run(run):
                 f.write(open(p_).read())
                 f.write(json.dumps({"op": "reset"}) + "\n")
         run.validate("trace/Trace_NoPanic.tla", "trace/Trace_NoPanic.cfg", allp, label="others." + profile)
+    run.cov["public_function_names"] = public_surface()
     run.cov["rule"] = ("replay: the cross product of extreme receivers (range ends, leap days, day 31), extreme durations (2^32-1 calendar units, 2^53-1 s, 2^82 ns, i32::MAX fields), every unit x "
                       "rounding mode x increments up to 1e9 and both overflow options for every arithmetic / difference / rounding / total / compare entry point of PlainDate, PlainDateTime, PlainTime, "
                       "Instant, Duration and ZonedDateTime (synthetic zones with a DST pair, a 24 h gap, a 24 h fold and a fixed offset), in an overflow-checked build with debug assertions and in a "
